@@ -152,6 +152,16 @@ BATCH = Stage(
     trace=("Trace_Batch.tla", "Trace_Batch.cfg"),
     nontrivial=lambda e: True,
 )
+CONTAINER = Stage(
+    family="container",
+    reset_ev="New",
+    mc={"quick": [("MC_Container.tla", "MC_Container.cfg", "pass"), ("MC_Container.tla", "MC_Container_neg.cfg", "fail")],
+        "thorough": [("MC_Container.tla", "MC_Container.cfg", "pass"), ("MC_Container.tla", "MC_Container_neg.cfg", "fail")]},
+    parts={"quick": [("", 1)], "thorough": [("", 4)]},
+    trace=("Trace_Container.tla", "Trace_Container.cfg"),
+    nontrivial=lambda e: e.get("ev") in ("Ser", "Len", "Udhi"),
+    behaviours={"quick": [("Gen_Container.tla", "Gen_Container.cfg", 100, 10)], "thorough": [("Gen_Container.tla", "Gen_Container.cfg", 2000, 10)]},
+)
 BUILDER = Stage(
     family="builder",
     reset_ev="New",
@@ -381,9 +391,11 @@ CHECKS = {
         assumptions=["type names obtained by reflection", "user-built requests carry the command id of their type in the header"],
     ),
     "C16": dict(
-        stages=[TLV],
+        stages=[TLV, CONTAINER],
         technique="TLA+ model of triplet containers (Tlv.tla): TLC exhaustive on both parser-loop variants and the serialiser's "
-                  "size arithmetic at scaled widths + TLC validation of every recorded container call at the real widths",
+                  "size arithmetic at scaled widths + TLC validation of every recorded container call at the real widths; the container "
+                  "as an object (Container.tla): TLC exhaustive over Put histories and serialisation orders, TLC-generated histories "
+                  "replayed on one real smpp.TLVs / smgp.Options and validated action by action",
         level_text="TLC checks NoFabrication, exactness on well-formed sequences, loop progress and termination for the strict and "
                    "the lenient parser loop over all octet strings of length <=7 (thorough 9) over {0,1,2}, and that the serialiser "
                    "never panics and truncates consistently (size arithmetic wrapping at 8 bits is the negative configuration).  "
